@@ -133,7 +133,7 @@ def plan_lines(p):
 BANNER = re.compile(rb"\n[^\n:]+:\n")
 
 
-def run_compile(binfo, scratch, files, opts, srcs, p, cpu=120):
+def run_compile(binfo, scratch, files, opts, srcs, p, cpu=120, pre=()):
     """One compiler world under perturbation p (dict).  Returns WorldResult with
     files keyed relative to the directory the compiler ran in."""
     w = scratch.new()
@@ -151,7 +151,7 @@ def run_compile(binfo, scratch, files, opts, srcs, p, cpu=120):
     if "gcopt" in p:
         o = [p["gcopt"]] + o
     plan = ["fs root " + sb] + plan_lines(p)
-    argv = [binfo["aldor_b" if p.get("image") == "b" and binfo.get("aldor_b") else "aldor"]] + buildlib.aldor_args() + o + list(srcs)
+    argv = [binfo["aldor_b" if p.get("image") == "b" and binfo.get("aldor_b") else "aldor"]] + list(pre) + buildlib.aldor_args() + o + list(srcs)
     r = vsim.run_world(binfo, argv, plan, w, cwd=run_dir, env=env, cpu=cpu, envpad=p.get("envpad", 0), collect=False)
     r.files = vsim.collect_files(run_dir, skip=tuple(files.keys()))
     vsim.cleanup_world(w)
@@ -192,18 +192,18 @@ def main(argv):
             rp = json.load(open(replay))
             files = dict((k, v.encode("latin-1")) for k, v in rp["files"].items())
             if rp.get("batch") and rp.get("unit") is None:
-                ref = run_compile(binfo, scratch, files, rp["opts"], rp["srcs"], {})
-                r = run_compile(binfo, scratch, files, rp["opts"], rp["srcs"], rp["perturbation"])
+                ref = run_compile(binfo, scratch, files, rp["opts"], rp["srcs"], {}, pre=rp.get("pre", ()))
+                r = run_compile(binfo, scratch, files, rp["opts"], rp["srcs"], rp["perturbation"], pre=rp.get("pre", ()))
                 d = differs(r, ref)
             elif rp.get("batch"):
-                ref = run_compile(binfo, scratch, files, rp["opts"], [rp["unit"]], {})
-                r = run_compile(binfo, scratch, files, rp["opts"], rp["srcs"], rp["perturbation"])
+                ref = run_compile(binfo, scratch, files, rp["opts"], [rp["unit"]], {}, pre=rp.get("pre", ()))
+                r = run_compile(binfo, scratch, files, rp["opts"], rp["srcs"], rp["perturbation"], pre=rp.get("pre", ()))
                 unit = rp["unit"][:-3]
                 rf = dict((k, v) for k, v in r.files.items() if os.path.basename(k).split(".")[0].split("-")[0] == unit)
                 d = [worlds.cls_of(k) for k in sorted(set(rf) | set(ref.files)) if rf.get(k) != ref.files.get(k)]
             else:
-                ref = run_compile(binfo, scratch, files, rp["opts"], rp["srcs"], {})
-                r = run_compile(binfo, scratch, files, rp["opts"], rp["srcs"], rp["perturbation"])
+                ref = run_compile(binfo, scratch, files, rp["opts"], rp["srcs"], {}, pre=rp.get("pre", ()))
+                r = run_compile(binfo, scratch, files, rp["opts"], rp["srcs"], rp["perturbation"], pre=rp.get("pre", ()))
                 d = differs(r, ref)
             vsim.say("replay: differs=%s" % d)
             if d:
@@ -287,7 +287,7 @@ def main(argv):
         # wide and shallow: many more corpus programs under a few cheap plans each (collector
         # mode, fill pattern, layout; no forced schedule) - rare layout-dependent diagnostics
         # show on few programs, so breadth matters as much as depth
-        nwide = 220 if tier == "quick" else 600
+        nwide = 400 if tier == "quick" else 700
         have = set(pr["name"] for pr in progs)
         wide = [(n, open(pth, "rb").read()) for n, pth, sz in cs if n not in have][:nwide]
         wopts = ["-Q2", "-Fao", "-Ffm", "-Fc"]
@@ -301,8 +301,25 @@ def main(argv):
             rng = vsim.Rng(seed, "c08-wide", n)
             pi = len(progs) - 1
             cheap = [{"gcopt": "-Wno-gc"}, {"wash": "wash on %s %s" % rng.choice(FILLS), "heapbase": rng.choice(BASES)},
-                     {"gcenv": {"GC_FRUGAL": "1"}, "stackpad": rng.range(1, 65536), "envpad": rng.range(1, 4096)}]
-            for q in rng.sample(cheap, 2 if tier == "quick" else 3):
+                     {"gcenv": {"GC_FRUGAL": "1"}, "stackpad": rng.range(1, 65536), "envpad": rng.range(1, 4096)},
+                     {"gc": ["gc per %d %d" % (rng.range(20000, 200000), rng.below(20000)), "gc cap 60"], "image": "b"}]
+            for q in rng.sample(cheap, 2 if tier == "quick" else 4):
+                cases.append((pi, q))
+        # ... and programs over the other standard library (libaldor): its tests and the user guide's examples
+        lwide = [(n, open(pth, "rb").read()) for n, pth, sz in worlds.corpus_libaldor() if n not in have]
+        lwide = lwide[:40 if tier == "quick" else 200]
+        lrefs = vsim.pmap(lambda w_: run_compile(binfo, scratch, {w_[0]: w_[1]}, wopts, [w_[0]], {}, cpu=60, pre=worlds.LIBALDOR_ARGS), lwide)
+        nlib_kept = 0
+        for (n, text), ref in zip(lwide, lrefs):
+            if ref.timeout or ref.rc is None or worlds.fault_class(ref) or ref.wall > 12 or b"Storage allocation error" in ref.out + ref.err:
+                continue
+            nlib_kept += 1
+            progs.append({"name": n, "text": text, "origin": "corpus-wide", "opts": wopts, "ref": ref, "nalloc": 1, "pre": worlds.LIBALDOR_ARGS})
+            rng = vsim.Rng(seed, "c08-lwide", n)
+            pi = len(progs) - 1
+            cheap = [{"gcopt": "-Wno-gc"}, {"wash": "wash on %s %s" % rng.choice(FILLS), "heapbase": rng.choice(BASES)},
+                     {"gc": ["gc per %d %d" % (rng.range(20000, 200000), rng.below(20000)), "gc cap 60"], "image": "b"}]
+            for q in cheap:
                 cases.append((pi, q))
         budget = checklib.Budget(400 if tier == "quick" else 2400)
         results = []
@@ -311,7 +328,7 @@ def main(argv):
             if budget.over():
                 break
             results += vsim.pmap(lambda c: run_compile(binfo, scratch, files_of(progs[c[0]]["name"], progs[c[0]]["text"]),
-                                                       progs[c[0]]["opts"], [progs[c[0]]["name"]], c[1]), cases[b0:b0 + B])
+                                                       progs[c[0]]["opts"], [progs[c[0]]["name"]], c[1], pre=progs[c[0]].get("pre", ())), cases[b0:b0 + B])
         done = len(results)
 
         # ---- batching: several files in one invocation vs one at a time -----------
@@ -380,7 +397,7 @@ def main(argv):
 
             def fails(dimlist):
                 q = dict((k, p[k]) for k in dimlist)
-                rr = run_compile(binfo, scratch, files_of(pr["name"], pr["text"]), pr["opts"], [pr["name"]], q)
+                rr = run_compile(binfo, scratch, files_of(pr["name"], pr["text"]), pr["opts"], [pr["name"]], q, pre=pr.get("pre", ()))
                 return bool(differs(rr, pr["ref"]))
             dl = dims_of(p)
             if not dl:
@@ -392,7 +409,7 @@ def main(argv):
                 else:
                     mind = dl
                 q = dict((k, p[k]) for k in mind)
-                rr = run_compile(binfo, scratch, files_of(pr["name"], pr["text"]), pr["opts"], [pr["name"]], q)
+                rr = run_compile(binfo, scratch, files_of(pr["name"], pr["text"]), pr["opts"], [pr["name"]], q, pre=pr.get("pre", ()))
                 d2 = differs(rr, pr["ref"])
                 if not d2:
                     mind, d2 = dl, d
@@ -439,8 +456,8 @@ def main(argv):
             pr = progs[pi]
             mind, d = vinfo[ci]
             q = dict((k, p[k]) for k in mind) if mind else {}
-            r1 = run_compile(binfo, scratch, files_of(pr["name"], pr["text"]), pr["opts"], [pr["name"]], q)
-            r2 = run_compile(binfo, scratch, files_of(pr["name"], pr["text"]), pr["opts"], [pr["name"]], q)
+            r1 = run_compile(binfo, scratch, files_of(pr["name"], pr["text"]), pr["opts"], [pr["name"]], q, pre=pr.get("pre", ()))
+            r2 = run_compile(binfo, scratch, files_of(pr["name"], pr["text"]), pr["opts"], [pr["name"]], q, pre=pr.get("pre", ()))
             if r1.outcome_hash() != r2.outcome_hash() and mind:
                 out.nondet.append("case %d: same plan twice gives different outputs" % ci)
                 continue
@@ -449,7 +466,7 @@ def main(argv):
                 continue
             rp = vsim.write_replay(PID, "seed%d-c%d" % (seed, ci), {
                 "property": PID, "seed": seed,
-                "files": dict((k, v.decode("latin-1")) for k, v in files_of(pr["name"], pr["text"]).items()), "opts": pr["opts"],
+                "files": dict((k, v.decode("latin-1")) for k, v in files_of(pr["name"], pr["text"]).items()), "opts": pr["opts"], "pre": list(pr.get("pre", ())),
                 "srcs": [pr["name"]], "perturbation": q, "differs": differs(r1, pr["ref"]), "key": key,
                 "source_key": binfo["key"], "other_failing_cases": len(ids) - 1})
             out.violations.append({"key": key, "cls": "differs", "detail": "%s %s under %s (%d cases)" % (pr["name"], differs(r1, pr["ref"]), q, len(ids)), "replay": rp})
@@ -460,7 +477,7 @@ def main(argv):
             "distinct_nontrivial": len(distinct) + len(batch_results),
             "rule": "per program (corpus sample validated on the current tree + generated programs) one repetition of the reference plan and seeded perturbed plans over {collection schedule, heap base, stack pad, environment size and junk variables, fill pattern, clock, pid, working-directory depth, GC_* tuning}; plus batched-vs-single invocations; distinct = distinct (program, perturbation); non-trivial = at least one dimension differs from the reference",
             "samples": [{"program": progs[c[0]]["name"], "opts": progs[c[0]]["opts"], "perturbation": c[1]} for c in cases[1:done:max(1, done // 5)]][:6],
-            "programs": len(progs), "program_origins": {"corpus": ncorpus, "generated": sum(1 for p in progs if p["origin"] == "generated"), "corpus_wide_shallow": nwide_kept},
+            "programs": len(progs), "program_origins": {"corpus": ncorpus, "generated": sum(1 for p in progs if p["origin"] == "generated"), "corpus_wide_shallow": nwide_kept, "libaldor_wide_shallow": nlib_kept},
             "programs_rejected_with_same_diagnostics_kept": sum(1 for p in progs if p["ref"].rc != 0),
             "programs_dropped_by_reference_validation": dropped,
             "worlds_planned": len(cases), "worlds_run": done, "batch_groups": len(batch_results),
